@@ -54,7 +54,7 @@ func TestCheck(t *testing.T) {
 			"too few cases with realistic identities / re-initialisations of the flow control")
 		r.Require(r.Counter("batch_increase_refused") >= 200 && r.Counter("batch_decreases") >= 200, "batches did not reach the limit")
 		r.Require(r.Counter("lin_histories") >= 100 && r.Counter("lin_overlapping_pairs") >= 500, "too few / too sequential porcupine histories")
-		r.Require(r.Counter("tb_grants") >= 200 && r.Counter("tb_refused_or_partial") >= 200 && r.Counter("tb_negative_asks") >= 20, "token-bucket runs observed too little")
+		r.Require(r.Counter("tb_runs_serial_exact_bound") >= 20 && r.Counter("tb_runs_concurrent_goroutines_taking_turns_exact_bound") >= 20 && r.Counter("tb_grants") >= 200 && r.Counter("tb_refused_or_partial") >= 200 && r.Counter("tb_negative_asks") >= 20, "token-bucket runs observed too little")
 	})
 }
 
@@ -1071,7 +1071,7 @@ type grant struct {
 }
 
 func tokenBucket(r *vkit.R) {
-	n := r.N(80, 800)
+	n := r.N(120, 900)
 	cfgs := [][2]int32{{50, 1}, {200, 200}, {1000, 50}, {5000, 500}, {20000, 1}, {1000, 10}, {100, 5}}
 	r.Parallel(n, 8, func(i int, g *vkit.Rand) {
 		cfg := cfgs[g.Intn(len(cfgs))]
@@ -1087,18 +1087,23 @@ func tokenBucket(r *vkit.R) {
 		// outside the limiter lock, as rate.Limiter.Allow itself does), which re-credits up to qps*(duration of that call)
 		// tokens per attempt; the statement cannot mean to forbid that library artefact, so the concurrent runs allow
 		// qps * 4 attempts * (sum of the durations of all calls overlapping the window) on top (gross over-granting only).
-		serial := i%2 == 0
+		// A third kind, turns: k caller goroutines that take turns under a mutex of the harness (clock read, call, clock read all
+		// inside it). The calls never overlap, so the timestamps the bucket sees are non-decreasing again and the bound is
+		// exact, while the callers are different goroutines on different threads.
+		serial := i%3 == 0
+		turns := i%3 == 2
 		k := g.Range(2, 8)
 		callers := k
 		if serial {
 			callers = 1
 		}
+		var turn sync.Mutex
 		pattern := g.Intn(3) // 0 saturating, 1 bursts with pauses, 2 ramp
 		perInst := g.Range(80, 250)
 		asks := []int32{0, 1, 1, 2, 3, 5, 8, 16, burst, burst + 1, 2 * burst, -1, -7, math.MaxInt32, 1 << 30, math.MinInt32}
 		var mu sync.Mutex
 		var grants []grant
-		var allCalls [][2]int64
+		var allCalls [][3]int64
 		var bad []string
 		var wg sync.WaitGroup
 		if serial {
@@ -1113,7 +1118,7 @@ func tokenBucket(r *vkit.R) {
 			go func(w int, g *vkit.Rand) {
 				defer wg.Done()
 				var mine []grant
-				var myCalls [][2]int64
+				var myCalls [][3]int64
 				for q := 0; q < perInst; q++ {
 					ask := asks[g.Intn(len(asks))]
 					switch pattern {
@@ -1126,10 +1131,24 @@ func tokenBucket(r *vkit.R) {
 							time.Sleep(time.Duration(g.Range(50, 500)) * time.Microsecond)
 						}
 					}
+					if turns {
+						turn.Lock()
+					}
 					t0 := bed.Now()
 					rs, err := t.acquire(fmt.Sprintf("gw%d", (w+q)%k), "tb", int64(q+1), ask)
 					t1 := bed.Now()
-					myCalls = append(myCalls, [2]int64{t0, t1})
+					if turns {
+						turn.Unlock()
+					}
+					// attempts DoAcquire made for this ask (n, n/2, n/4, n/8 until one is granted or the amount reaches 0)
+					att := int64(0)
+					for v := ask; v > 0 && att < 4; v /= 2 {
+						att++
+						if err == nil && rs.Accept && rs.Limit == v {
+							break
+						}
+					}
+					myCalls = append(myCalls, [3]int64{t0, t1, att})
 					if pe, ok := err.(panicErr); ok {
 						cls := "C08/doacquire/panic/tb"
 						if ask < 0 {
@@ -1200,6 +1219,27 @@ func tokenBucket(r *vkit.R) {
 		if serial {
 			r.Count("tb_runs_serial_exact_bound", 1)
 		}
+		if turns {
+			r.Count("tb_runs_concurrent_goroutines_taking_turns_exact_bound", 1)
+		}
+		exact := serial || turns
+		// for the overlapping runs: a call can only have seen the limiter's clock run backwards if another call overlaps it
+		sort.Slice(allCalls, func(a, b int) bool { return allCalls[a][0] < allCalls[b][0] })
+		overl := make([]bool, len(allCalls))
+		if !exact {
+			var maxEnd int64 = -1
+			for j, c := range allCalls {
+				if c[0] <= maxEnd {
+					overl[j] = true
+				}
+				if j+1 < len(allCalls) && allCalls[j+1][0] <= c[1] {
+					overl[j] = true
+				}
+				if c[1] > maxEnd {
+					maxEnd = c[1]
+				}
+			}
+		}
 		r.Count("tb_grants", len(grants))
 		r.Distinct(vkit.Hash64(fmt.Sprintf("%d/%d/%d/%d/%d", qps, burst, k, pattern, i)))
 		// window bound: every grant with [t_call, t_return] inside [a, b] took its tokens inside [a, b], where the bucket can
@@ -1216,18 +1256,22 @@ func tokenBucket(r *vkit.R) {
 				sum += int64(gr.Granted)
 				B := gr.Return
 				allowed := float64(burst) + float64(qps)*float64(B-A)/1e9 + 1
-				if !serial && float64(sum) > allowed {
+				if !exact && float64(sum) > allowed {
+					// re-credit by clock inversion: at most qps * (duration of the call) per attempt actually made, and only
+					// for calls that overlap another call
 					var dur int64
-					for _, c := range allCalls {
-						if c[1] >= A && c[0] <= B {
-							dur += c[1] - c[0]
+					for j, c := range allCalls {
+						if overl[j] && c[1] >= A && c[0] <= B {
+							dur += (c[1] - c[0]) * c[2]
 						}
 					}
-					allowed += float64(qps) * 4 * float64(dur) / 1e9
+					allowed += float64(qps) * float64(dur) / 1e9
 				}
 				if float64(sum) > allowed {
 					sig := "C08/tokenbucket/window-bound/serial-caller"
-					if !serial {
+					if turns {
+						sig = "C08/tokenbucket/window-bound/callers-taking-turns"
+					} else if !serial {
 						sig = "C08/tokenbucket/window-bound/concurrent-callers"
 					}
 					r.Violation(sig,
